@@ -30,11 +30,21 @@ pub struct EncOpts {
     /// term, then completely (the layout does not forbid a record id to occur twice; whichever way a decoder
     /// resolves it - first wins, last wins, merge - links and record must stay consistent with each other)
     pub repeat_records: bool,
+    /// one parent record per (term, parent) link instead of one record per term (a term without parents still
+    /// gets its empty record unless `omit_empty_parent_records`). The layout tables do not say that a term id
+    /// occurs in one parent record only; what a decoder does with such a file is unspecified.
+    pub split_parent_records: bool,
+    /// the first parent id of every non-empty parent record is listed a second time at the end of the record
+    /// (the count field includes the repetition). Unspecified for decoders.
+    pub repeat_parent_ids: bool,
+    /// the first term id of every gene / disease record that lists terms is listed a second time at the end of
+    /// the record (count and total length include the repetition). Unspecified for decoders.
+    pub repeat_term_ids: bool,
 }
 
 impl EncOpts {
     pub fn v(version: u8) -> EncOpts {
-        EncOpts { version, parents_order: None, omit_empty_parent_records: false, repeat_records: false }
+        EncOpts { version, parents_order: None, omit_empty_parent_records: false, repeat_records: false, split_parent_records: false, repeat_parent_ids: false, repeat_term_ids: false }
     }
 }
 
@@ -143,22 +153,31 @@ impl Sections {
             if ps.is_empty() && o.omit_empty_parent_records {
                 continue;
             }
-            parents.push(parents_record(id, &ps));
+            let groups: Vec<Vec<u32>> = if o.split_parent_records && !ps.is_empty() { ps.iter().map(|p| vec![*p]).collect() } else { vec![ps] };
+            for mut g in groups {
+                if o.repeat_parent_ids && !g.is_empty() {
+                    g.push(g[0]);
+                }
+                parents.push(parents_record(id, &g));
+            }
         }
         let mut recs: [Vec<Vec<u8>>; 3] = Default::default();
         for k in KINDS {
             for (id, name, terms) in records_of(f, k) {
+                let write = |list: &[u32]| -> Vec<u8> {
+                    let mut l = list.to_vec();
+                    if o.repeat_term_ids && !l.is_empty() {
+                        l.push(l[0]);
+                    }
+                    match k {
+                        Kind::Gene => gene_record(id, &name, &l),
+                        _ => disease_record(id, &name, &l),
+                    }
+                };
                 if o.repeat_records && !terms.is_empty() {
-                    let part = &terms[..terms.len() - 1];
-                    recs[k.idx()].push(match k {
-                        Kind::Gene => gene_record(id, &name, part),
-                        _ => disease_record(id, &name, part),
-                    });
+                    recs[k.idx()].push(write(&terms[..terms.len() - 1]));
                 }
-                recs[k.idx()].push(match k {
-                    Kind::Gene => gene_record(id, &name, &terms),
-                    _ => disease_record(id, &name, &terms),
-                });
+                recs[k.idx()].push(write(&terms));
             }
         }
         Sections { version: v, hpo_version: f.version, terms, parents, recs }
